@@ -46,7 +46,7 @@ def task(t):
             unit = run.unit_of(o.state, q, o.value)
             R.oblig(pair + " unit", unit == tu, False)
             if unit != tu:
-                R.candidates.append(E.cand("C01", "unit", be, w, "convert", [q], [fu, tu], None, pair, note="result unit %s" % unit))
+                R.candidates.append(E.cand("C01", "unit", be, w, "convert", [q], [fu, tu], E.path_amounts(sv, [box] + th.cons + o.pc, [a], be), pair, note="result unit %s" % unit))
             r = run.amount_of(o.state, q, o.value)
             Tt = a.term * T.Q(sf / st_)
             if be == "f64":
